@@ -31,6 +31,9 @@ template <typename F, class FN, class PRED> static inline bool vec_lanes(F x, FN
   glm::vec<4, F> r4 = fn(glm::vec<4, F>(x, -x, x, x)); glm::vec<3, F> r3 = fn(glm::vec<3, F>(x, -x, x)); glm::vec<2, F> r2 = fn(glm::vec<2, F>(x, -x));
   const F l[6] = {r4[0], r4[2], r4[3], r3[0], r3[2], r2[0]}; for (int i = 0; i < 6; ++i) if (!pred(l[i])) { *bad = FT<F>::bits(l[i]); return false; } return true; }
 #define VEC_LANES(FNNAME, PREDBODY, MSG) { uint64_t badl = 0; if (!vec_lanes<F>(x, [](auto v) { return glm::FNNAME(v); }, [&](F r) { return PREDBODY; }, &badl)) { o.res(badl); o.bad(40, MSG); return; } }
+// iround / uround: the vec1..vec4 overloads on (x, x, x, x) (the argument must be non-negative); every lane is held to the scalar definition
+#define IU_LANES(FNNAME, RT, MSG) { glm::vec<4, RT> q4 = glm::FNNAME(glm::vec<4, F>(x)); glm::vec<3, RT> q3 = glm::FNNAME(glm::vec<3, F>(x)); glm::vec<2, RT> q2 = glm::FNNAME(glm::vec<2, F>(x)); glm::vec<1, RT> q1 = glm::FNNAME(glm::vec<1, F>(x)); \
+  const RT l[10] = {q4[0], q4[1], q4[2], q4[3], q3[0], q3[1], q3[2], q2[0], q2[1], q1[0]}; for (int i = 0; i < 10; ++i) if (!(((double)l[i] == (double)fl && dl <= dc) || ((double)l[i] == (double)ce && dc <= dl))) { o.res((uint64_t)(int64_t)l[i]); o.bad(40, MSG); return; } }
 enum { U_FLOOR, U_CEIL, U_TRUNC, U_ROUND, U_ROUNDEVEN, U_FRACT, U_ABS, U_SIGN, U_ISNAN, U_ISINF, U_FREXP, U_MODF, U_IROUND, U_UROUND, U_TEXCOORD, U_MISC };
 
 // exact integer-valued references, independent of libm's rounding functions: via the wider type
@@ -74,11 +77,13 @@ template <typename F, int WHICH> static void op_unary(const Case& c, Outcome& o)
   if (WHICH == U_IROUND) { if (!(x >= 0) || !(x < (F)2147483647.5) || ((F)2147483647.5 == (F)2147483648.0 && !(x < (F)2147483520.0 + 64))) { o.nontrivial = false; return; }
     typename FT<F>::W dl = (typename FT<F>::W)x - fl, dc = (typename FT<F>::W)ce - x; if ((double)ce > 2147483647.0) { o.nontrivial = false; return; }
     int g = glm::iround(x); o.res((uint64_t)(int64_t)g); o.exp((uint64_t)(int64_t)(dl <= dc ? fl : ce));
-    if (!(((double)g == (double)fl && dl <= dc) || ((double)g == (double)ce && dc <= dl))) { o.bad(1, "iround: not the nearest integer"); return; } }
+    if (!(((double)g == (double)fl && dl <= dc) || ((double)g == (double)ce && dc <= dl))) { o.bad(1, "iround: not the nearest integer"); return; }
+    IU_LANES(iround, int, "iround(vec): a lane is not the nearest integer") }
   if (WHICH == U_UROUND) { if (!(x >= 0) || (double)ce > 4294967295.0) { o.nontrivial = false; return; }
     typename FT<F>::W dl = (typename FT<F>::W)x - fl, dc = (typename FT<F>::W)ce - x;
     glm::uint g = glm::uround(x); o.res(g); o.exp((uint64_t)(dl <= dc ? fl : ce));
-    if (!(((double)g == (double)fl && dl <= dc) || ((double)g == (double)ce && dc <= dl))) { o.bad(1, "uround: not the nearest integer"); return; } }
+    if (!(((double)g == (double)fl && dl <= dc) || ((double)g == (double)ce && dc <= dl))) { o.bad(1, "uround: not the nearest integer"); return; }
+    IU_LANES(uround, glm::uint, "uround(vec): a lane is not the nearest integer") }
   if (WHICH == U_TEXCOORD) { if (!fin) { o.nontrivial = false; return; }
     F a = glm::clamp(x), b = glm::repeat(x), cc = glm::mirrorClamp(x), d = glm::mirrorRepeat(x); o.res(FT<F>::bits(a), FT<F>::bits(d));
     if (!(a >= 0 && a <= 1)) { o.bad(1, "clamp(texcoord) outside [0,1]"); return; } if (!(b >= 0 && b <= 1)) { o.bad(2, "repeat(texcoord) outside [0,1]"); return; }
